@@ -99,6 +99,14 @@ def _build(pkg, placement, producer, timing, two_modules=False):
 
         def read_stmt():
             return gen.s_method(kr, "2")
+    if _vm[0] == "reader_thread":
+        # the reading side runs in a worker thread started by the evaluated function (the function is handed to the runner by name)
+        _rs2 = read_stmt
+        rw2 = gen.add_fn(p, m1, "rwrap", const=47)
+        p["fns"][rw2]["stmts"] = [_rs2()]
+
+        def read_stmt():
+            return gen.s_ref(rw2, runner="thread")
     rmain = gen.add_fn(p, m1, "rmain", const=1)
     f = p["fns"][rmain]
     f["stmts"] = [gen.s_call(unrelated, [])]
@@ -322,8 +330,8 @@ def run(tier, seed):
                                 jobs.append((placement, producer, timing, edit, store, populated, idx % 2 == 0, idx * 10 + 4, "assign", "eval", None, True))
                             # one or both sides of the pipeline reached through a method of a class
                             if edit == "prod_const" and (timing != "never") and (tier != "quick" or store == "local"):
-                                for vi, vm in enumerate(("producer", "reader", "both", "producer_class_by_name")):
-                                    if tier == "quick" and (idx + vi) % 3 != 0 and not (placement == "top" and timing == "same_before") and not (vm == "producer_class_by_name" and placement in ("kept", "top")):
+                                for vi, vm in enumerate(("producer", "reader", "both", "producer_class_by_name", "reader_thread")):
+                                    if tier == "quick" and (idx + vi) % 3 != 0 and not (placement == "top" and timing == "same_before") and not (vm == "producer_class_by_name" and placement in ("kept", "top")) and not (vm == "reader_thread" and timing == "same_before"):
                                         continue
                                     jobs.append((placement, producer, timing, edit, store, populated, False, idx * 10 + 5 + vi, "assign", "eval", vm))
                             # the other syntactic positions of the load expression
